@@ -683,7 +683,9 @@ def background(kind, n, rng):
             (bytes(rng.getrandbits(8) for _ in range(4096)) * (n // 4096 + 1))[:n]
     if kind == 'ff':
         return b'\xff' * n
-    words = ['# comment', 'key=value', 'RW 1 SPARSE "x"', 'hello world', 'ddb.a = "1"', 'createType="vmfs"', '']
+    words = ['# comment', 'key=value', 'RW 1 SPARSE "x"', 'hello world', 'ddb.a = "1"', '']
+    if rng.random() < 0.5:
+        words.append(rng.choice(['createType="vmfs"', 'createType="monolithicSparse"', 'CREATETYPE="streamOptimized"']))
     s = bytearray()
     while len(s) < n:
         s += (rng.choice(words) + '\n').encode()
@@ -715,6 +717,8 @@ def signature_present(name, data):
         return data[0:4] == b'KDMV' or b'createtype="' in data.lower()
     if name == 'iso':
         return data[32 * K + 1:32 * K + 6] in (b'CD001', b'NSR02', b'NSR03')
+    if name == 'gpt':        # an MBR signature on a boot sector that is not a FAT volume boot record
+        return data[510:512] == b'\x55\xaa' and not (data[0x10] == 2 and data[0x15] == 0xF8)
     return all(data[o:o + len(s)] == s for o, s in images.SIGNATURES[name])
 
 
@@ -838,18 +842,19 @@ def c06_streams(rng, quick):
         n = len(data)
         cuts = sorted(rng.randrange(0, n + 1) for _ in range(nchunks - 1))
         return images.sizes_from_cuts(cuts, n)
+    # the first seven are the ones enumerated exhaustively in the quick tier
     out.append(('zeros-6x100', bytes(600), [100] * 6))
-    out.append(('zeros-512s', bytes(512 * 4), [512] * 4))
     out.append(('qcow2', images.qcow2(total=1024)[0], [4, 100, 408, 500, 12]))
     out.append(('vmdk', images.vmdk(desc_num=1, body=100)[0], [64, 448, 512, 50, 50]))
     out.append(('vmdk-bad-version', images.vmdk(ver=7, desc_num=1, body=10)[0], [10, 54, 448, 522]))
+    out.append(('gpt', images.gpt(total=1024)[0], [511, 1, 512]))
+    out.append(('luks', images.luks(body_len=8)[0], [6, 586, 8]))
+    out.append(('vdi-with-empty-chunks', images.vdi()[0], [0, 512, 0, 512, 0]))
+    out.append(('zeros-512s', bytes(512 * 4), [512] * 4))
     out.append(('vmdk-bad-descsec', images.vmdk(desc_sec=9, desc_num=1, body=10)[0], [63, 1, 970]))
     out.append(('vmdk-text', images.vmdk_text()[0], [4, 60, 100, 200]))
     out.append(('binary-ff', b'\xff' * 700, [64, 448, 100, 88]))
-    out.append(('gpt', images.gpt(total=1024)[0], [511, 1, 512]))
-    out.append(('luks', images.luks(body_len=8)[0], [6, 586, 8]))
     out.append(('vhd', images.vhd()[0], [512, 0, 512]))
-    out.append(('vdi-with-empty-chunks', images.vdi()[0], [0, 512, 0, 512, 0]))
     out.append(('qed', images.qed()[0], [511, 1, 512]))
     out.append(('empty-stream', b'', [0, 0]))
     out.append(('one-chunk', images.qcow2(total=600)[0], [600]))
